@@ -12,6 +12,7 @@ import (
 	"github.com/cloudflare/pint/internal/discovery"
 	"github.com/cloudflare/pint/internal/promapi"
 	"github.com/cloudflare/pint/internal/reporter"
+	"github.com/cloudflare/pint/internal/verifhook"
 )
 
 func checkRules(ctx context.Context, workers int, isOffline bool, gen *config.PrometheusGenerator, cfg config.Config, entries []discovery.Entry) (summary reporter.Summary, err error) {
@@ -164,10 +165,16 @@ func scanWorker(ctx context.Context, jobs <-chan scanJob, results chan<- reporte
 				)
 			}
 
+			if verifhook.Enabled {
+				verifhook.At("scan.check", job.entry.Path.Name+":"+job.entry.Rule.Lines.String()+"|"+job.check.String())
+			}
 			start := time.Now()
 			problems := job.check.Check(ctx, job.entry, job.allEntries)
 			checkDuration.WithLabelValues(job.check.Reporter()).Observe(time.Since(start).Seconds())
 			for _, problem := range problems {
+				if verifhook.Enabled {
+					verifhook.At("scan.report", job.entry.Path.Name+":"+job.entry.Rule.Lines.String()+"|"+job.check.String())
+				}
 				results <- reporter.Report{
 					Path:          job.entry.Path,
 					ModifiedLines: job.entry.ModifiedLines,
